@@ -134,14 +134,16 @@ func fieldName(info *types.Info, sel *ast.SelectorExpr) (string, bool) {
 			}
 		}
 		if st, ok := t.(*types.Struct); ok {
+			// a struct's only sync.Mutex is <mutex>, its only sync.RWMutex is <rwmutex>, whatever they are called
+			kind := func(t types.Type) string { return t.(*types.Named).Obj().Name() }
 			cnt := 0
 			for i := 0; i < st.NumFields(); i++ {
-				if isMutex(st.Field(i).Type()) {
+				if isMutex(st.Field(i).Type()) && kind(st.Field(i).Type()) == kind(v.Type()) {
 					cnt++
 				}
 			}
 			if cnt == 1 {
-				fname = "<mutex>"
+				fname = "<" + strings.ToLower(kind(v.Type())) + ">"
 			}
 		}
 	}
